@@ -161,7 +161,8 @@ def find_flows(facts, only_unordered=True):
                 continue
             if c.name in ("len", "is_empty", "first", "last"):
                 continue
-            at = du.operand_term(t.args[0], 30)
+            # `dest.extend(iterator)`: the iteration is the second argument
+            at = du.operand_term(t.args[1] if (c.name == "extend" and len(t.args) >= 2) else t.args[0], 30)
             src, chain = _source_of(at)
             if src[0] != "call" or src[4] is None:
                 # iteration over a listing result (Vec<String> from a lister)?
